@@ -79,10 +79,18 @@ func (r *Run) Thorough() bool { return r.Tier == "thorough" }
 // Scale picks a size by tier.
 func (r *Run) Scale(quick, thorough int) int {
 	if r.Thorough() {
+		// the C15 runner repeats every other property's workload under the race detector (5-15x slower) on
+		// several thread counts: there the thorough size is capped at 4x the quick size
+		if scaleCapped && thorough > 4*quick {
+			return 4 * quick
+		}
 		return thorough
 	}
 	return quick
 }
+
+// scaleCapped is set by the C15 runner.
+var scaleCapped bool
 
 // Rand returns a generator derived from the run seed and a label, so that
 // scenarios are independent of each other's consumption.
